@@ -38,6 +38,27 @@ func c19Claims(rng *Rng, valid bool) *ClaimsDesc {
 	}
 }
 
+// c19Both: a profile-1 claims-set holding both a component list and the no-measurements flag (decodable, invalid): what
+// the encoder makes of it must still be what verification binds to the attached claims.
+func c19Both(rng *Rng) *ClaimsDesc {
+	for {
+		d := baseValid(rng, 1)
+		d.Canon = canonOf(1)
+		if d.Prof != nil {
+			d.Prof = sp(d.Canon)
+		}
+		if d.SwKind != SwList || len(d.Sw) == 0 {
+			continue
+		}
+		d.NoSw = uip(Pick(rng, []uint{0, 1, 7}))
+		normalise(&d)
+		if hasBadUTF8(&d) || hasNilComp(&d) || d.NoSw == nil || len(d.Sw) == 0 {
+			continue
+		}
+		return &d
+	}
+}
+
 func flipBit(b []byte, i int) []byte {
 	c := append([]byte{}, b...)
 	c[i/8] ^= 1 << uint(i%8)
@@ -59,6 +80,9 @@ func runC19(r *Run, rng *Rng, thorough bool) {
 	for i := 0; i < 12; i++ {
 		k := ks[rng.Intn(6)] // no RSA here: keep the pool cheap
 		d := c19Claims(rng, i%4 != 3)
+		if i%8 == 7 {
+			d = c19Both(rng)
+		}
 		tok, _, err := signedToken(d, k, k.algs[0])
 		if err == nil {
 			pool = append(pool, poolTok{tok, k.id})
@@ -87,7 +111,11 @@ func runC19(r *Run, rng *Rng, thorough bool) {
 			case x < 12:
 				ops = append(ops, &evOp{Kind: "setclaims", D: c19Claims(rng, rng.Chance(70))})
 			case x < 18:
-				ops = append(ops, &evOp{Kind: "mutate", D: c19Claims(rng, rng.Chance(40))})
+				md := c19Claims(rng, rng.Chance(40))
+				if rng.Chance(25) {
+					md = c19Both(rng)
+				}
+				ops = append(ops, &evOp{Kind: "mutate", D: md})
 			case x < 45:
 				k := ks[rng.Intn(len(ks))]
 				if k.family == "rsa" && !rng.Chance(15) {
